@@ -2,15 +2,22 @@
 """Regenerates MANIFEST.json from the table below (one entry per claimed property)."""
 import json
 props = [json.loads(l) for l in open('/verif/properties.jsonl')]
-FIXES = ["4919a31", "c4a424f", "4f698e4"]
+FIXES = ["4919a31", "c4a424f", "4f698e4", "b6107c4", "70a6e6e"]
 BROKER_NOTE = ("Trusted: TLC, the virtual-time loop/clock rebinding, the recorder's projection of DummyQueue. "
                "In-memory broker only so far (Redis/RabbitMQ need the fake servers, see DESIGN 9).")
+WORKER_NOTE = ("Trusted: TLC, virtual-time loop, recorder, scripted actors. In-memory broker; Redis/RabbitMQ not covered yet.")
 CLAIMS = {
  "C01": dict(text="BrokerAbs contract model-checked exhaustively (Conservation, OneHolder, action properties); every recorded client history on the real in-memory broker, incl. one re-run per (call, loop step) with task cancellation, must be a behaviour of the contract (each observed move of a message explained by exactly one contract action)", tech="TLA+ contract spec + TLC; trace validation of recorded executions (cancellation-point enumeration)", design="6/C01", note=BROKER_NOTE),
  "C05": dict(text="NeverEarly/OnlyViaDelayed as TLC action properties of BrokerAbs; recorded histories with delays around second/ms boundaries and a latency clause (a waiting consume() is not starved beyond the code's own polling bound) validated against the contract", tech="TLA+ contract spec + TLC; trace validation", design="6/C05", note=BROKER_NOTE),
  "C12": dict(text="NoExpiredDelivery/NotDroppedWhileLive as TLC action properties; recorded histories with TTLs and clock advances on both sides of the expiry validated against the contract's ttl clauses", tech="TLA+ contract spec + TLC; trace validation", design="6/C12", note=BROKER_NOTE),
  "C14": dict(text="OneHolder invariant of BrokerAbs; histories with several consumers per queue: a consume() may only return a message the contract says that consumer holds and has not been handed yet; finish() may only return the consumer's own messages", tech="TLA+ contract spec + TLC; trace validation", design="6/C14", note=BROKER_NOTE),
  "C15": dict(text="FIFO clause of the contract's Take guard (arrival order incl. returned messages) checked on single-consumer histories with distinguishable messages, topics and priorities", tech="TLA+ contract spec + TLC; trace validation", design="6/C15", note=BROKER_NOTE),
+ "C02": dict(text="WorkerAbs (abstract worker, TLC: ExactlyOne, TriedBound, ChainLength, ...) + every recorded run of the real Worker over the outcome x retry-state x recurrence x result cross product and concurrent mixes must be a behaviour of Trace_Worker: exactly one terminal broker action per delivery, the one the shared Disposition table prescribes, none after an eager response", tech="TLA+ worker model + TLC; trace validation of recorded Worker runs", design="6/C02", note=WORKER_NOTE),
+ "C03": dict(text="every scenario re-run with the stop request injected at every loop step where something observable happens (+ samples of idle steps), graceful periods incl. 0: at return+quiescence nothing in flight, every taken message disposed or back in its queue, broker life cycle intact, run() back within grace+slack", tech="TLA+ worker model + TLC; crash-point enumeration + trace validation", design="6/C03", note=WORKER_NOTE + " Process death on Redis needs the fake server (not built yet)."),
+ "C04": dict(text="retry clause of Trace_Worker on all failure patterns over N+1 attempts (exception/timeout), 4 policies, recurring or not, eager retry/force_retry: counter +1 per retry, <= max unless forced, reset per scheduling, back-off due >= failure time + policy(k) (delivery not before due is the broker contract's NeverEarly)", tech="TLA+ worker model + TLC; trace validation", design="6/C04", note=WORKER_NOTE),
+ "C06": dict(text="recur clause: after each finished iteration exactly one successor (broker conservation), counter 0, ttl clock restarted, now < due' <= now+P, due' >= scheduled(prev)+P, over 4-6 iterations with varying lateness/duration/outcomes", tech="TLA+ worker model + TLC; trace validation", design="6/C06", note=WORKER_NOTE + " cron recurrence not exercised (croniter not installed)."),
+ "C09": dict(text="limit clause (actor bodies in progress <= tasks_limit at every body start) and bounded-liveness clause (every job executed by a deadline derived from durations) on scenarios with 1-3 queues sharing the limiter, bursts, uneven durations, failing and self-cancelling actors", tech="TLA+ worker model + TLC (RunningBound, Progress under fairness); trace validation", design="6/C09", note=WORKER_NOTE),
+ "C10": dict(text="mlimit clause: actor executions started <= messages_limit, run() returns by itself, messages beyond M back in their queue, over M x backlog x durations x tasks_limit x queues", tech="TLA+ worker model + TLC (StartedBound); trace validation", design="6/C10", note=WORKER_NOTE),
 }
 checks = []
 for p in props:
